@@ -4,7 +4,7 @@
    py/props/c15.py on every run); Spec/C15.v holds the independent reader `decode`, the reference watch-list
    normalisation `first_occ`, the reference history `hist` and the pre-edge values `samples_of`. *)
 From V Require Import Base.Bits Model.SimKernel Model.Waveform Spec.C15.
-From V Require Import Proofs.C15.Digits Proofs.C15.Row Proofs.C15.Watch Proofs.C15.Kernel Proofs.C15.Wavedrom Proofs.C15.EndToEnd Proofs.C15.Main.
+From V Require Import Proofs.C15.Digits Proofs.C15.Row Proofs.C15.Watch Proofs.C15.Kernel Proofs.C15.Wavedrom Proofs.C15.EndToEnd Proofs.C15.History Proofs.C15.Main.
 
 
 (* ---- watch list: ports stand for their wire, repeated entries are merged by wire identity, order of
@@ -45,6 +45,27 @@ Theorem C15_one_sample_per_cycle :
       /\ length (old ++ samples_of d (propagated d s) (entry_wire e) n) = (length old + n)%nat.
 Proof. exact thm_C15_one_sample_per_cycle. Qed.
 
+(* ---- the same over a whole user history (History.kop: pokes of inputs, clk(n) with n = 0 allowed, clear()):
+   a fresh recorder in an ungated domain of ANY design ends with, for every entry, the reference list History.kexp
+   (each clk(n) contributes the n pre-edge values of the entry's wire, clear() forgets), whose length is the
+   number of cycles simulated since the last clear() *)
+Theorem C15_kernel_history :
+  forall (St : Type) (getR : St -> dict) (setR : St -> dict -> St),
+    (forall st dd, getR (setR st dd) = dd) ->
+  forall (d : design St) (k : nat) ws entries (ops : list kop) (s : state St),
+    nth_error (seqs d) k = Some (recorder_leaf getR setR (wf_uniq (wf_init ws entries))) ->
+    listed_once d k -> ungated d k ->
+    recS getR k s = Some (wf_getDict (wf_init ws entries)) ->
+    exists dd', recS getR k (fold_left (krun getR setR d k) ops s) = Some dd' /\
+      keys dd' = wf_uniq (wf_init ws entries) /\
+      forall e, In e entries ->
+        dict_get dd' (entry_wire e) = Some (kexp getR setR d k (entry_wire e) [] s ops) /\
+        length (kexp getR setR d k (entry_wire e) [] s ops) = kcount 0 ops.
+Proof.
+  intros St getR setR Hgs d k ws entries ops s Hleaf H1 H2 Hr.
+  exact (khistory_entries getR setR Hgs d k _ Hleaf ws entries ops s H1 H2 eq_refl Hr).
+Qed.
+
 (* the invariant assumed above is what __init__ establishes and what clock()/clear() keep *)
 Theorem C15_invariant : forall ws entries ops, wf_inv ws entries (fold_left wf_op ops (wf_init ws entries)).
 Proof. exact thm_C15_invariant. Qed.
@@ -69,6 +90,11 @@ Proof. exact thm_C15_hex_label_roundtrip. Qed.
 Theorem C15_roundtrip : forall ww samples, Forall (fits ww) samples ->
   decode ww (row ww (if ww =? 1 then FmtEmpty else FmtHEX) samples) = Some samples.
 Proof. exact thm_C15_roundtrip. Qed.
+
+(* hence the rendering loses nothing: different (in-range) histories give different rows *)
+Theorem C15_rendering_injective : forall ww s1 s2, Forall (fits ww) s1 -> Forall (fits ww) s2 ->
+  row ww (if ww =? 1 then FmtEmpty else FmtHEX) s1 = row ww (if ww =? 1 then FmtEmpty else FmtHEX) s2 -> s1 = s2.
+Proof. exact thm_C15_rendering_injective. Qed.
 
 (* the range guard (C06: a wire's value fits its width) cannot be dropped: a 1-bit row holding 10 renders
    "x10x" and reads back as two samples *)
@@ -143,6 +169,30 @@ Example C15_nonvacuous :
   nth_error (snd (wf_wavedrom ws r)) 3 = Some ([120; 50; 46; 50; 120], [[70; 70]; [49; 48]]).
 Proof. exact thm_C15_nonvacuous. Qed.
 
+(* non-vacuity of the kernel-level hypotheses (lens law, recorder leaf, listed_once, ungated) on a concrete design:
+   an 8-bit register and a recorder watching its output, its input port and its output again; and the gated variant *)
+Example C15_kernel_nonvacuous :
+  let d0 : design Z := {| widths := [8; 8; 1]; combs := [];
+                          seqs := [{| s_in := [0%nat]; s_out := [1%nat]; s_f := fun (st : Z) ins => (st, [Some (nth 0 ins 0)]) |}];
+                          drivers := [{| d_enable := None; d_leaves := [0%nat] |}] |} in
+  let entries := [EWire 1; EPort 0; EWire 1] in
+  let r0 := wf_init (widths d0) entries in
+  let d := with_recorder d0 (wf_uniq r0) 0 None in                  (* recorder in the ungated domain *)
+  let dg := with_recorder d0 (wf_uniq r0) 1 (Some 2%nat) in          (* recorder in a domain gated by wire 2 *)
+  let st0 : list (Z + dict) := [inl 0; inr (wf_getDict r0)] in
+  (forall (st : Z + dict) dd, getR_sum (setR_sum st dd) = dd) /\
+  nth_error (seqs d) 1 = Some (recorder_leaf getR_sum setR_sum (wf_uniq r0)) /\
+  listed_once d 1 /\ ungated d 1 /\
+  recS getR_sum 1 (init d st0) = Some (wf_getDict r0) /\
+  recS getR_sum 1 (clk d 3 (poke d (init d st0) 0 77)) = Some [(1%nat, [0; 77; 77]); (0%nat, [77; 77; 77])] /\
+  (* gated off: three cycles are simulated (the register follows its input) and nothing is recorded *)
+  total (clk dg 3 (poke dg (init dg st0) 0 77)) = 3%nat /\
+  rd (vals (clk dg 3 (poke dg (init dg st0) 0 77))) 1 = 77 /\
+  recS getR_sum 1 (clk dg 3 (poke dg (init dg st0) 0 77)) = Some [(1%nat, []); (0%nat, [])] /\
+  (* gate open on the second call only *)
+  recS getR_sum 1 (clk dg 2 (poke dg (clk dg 3 (poke dg (init dg st0) 0 77)) 2 1)) = Some [(1%nat, [77; 77]); (0%nat, [77; 77])].
+Proof. exact thm_C15_kernel_nonvacuous. Qed.
+
 Print Assumptions C15_watchlist.
 Print Assumptions C15_history.
 Print Assumptions C15_one_sample_per_cycle.
@@ -155,3 +205,5 @@ Print Assumptions C15_span.
 Print Assumptions C15_wavedrom_decodes.
 Print Assumptions C15_clear.
 Print Assumptions C15_end_to_end.
+Print Assumptions C15_kernel_history.
+Print Assumptions C15_rendering_injective.
